@@ -439,9 +439,35 @@ def r7(ctx, facts):
                    % (meth, fn_short(bad.name or "?") if bad else "a replica lookup"), bad.span if bad else b.span)
 
 
+def r8(ctx, facts):
+    r = ctx.rule("R8", "the policy's own location preference, when set (also when set to `no datacenter`), wins over the one inherited with the request; the inherited one is used only when the policy has none", floor=1)
+    from ..util import field_slice
+    n = 0
+    for b in facts.bodies.mentioning("ProcessedRoutingInfo"):
+        if b.crate != "scylla" or "::promoted[" in b.path:
+            continue
+        for bb in sorted(b.live_blocks):
+            for st in b.stmts(bb):
+                if not (st[0] == "A" and st[2][0] == "agg" and st[2][1][0] == "adt" and st[2][1][1].endswith("ProcessedRoutingInfo") and "preference" in (st[2][1][4] or [])):
+                    continue
+                op = st[2][2][st[2][1][4].index("preference")]
+                seen, calls, _ = field_slice(b, op)
+                on_opt = [c for c in calls if c.args and c.args[0][0] in ("c", "m") and b.local_ty(c.args[0][1][0]).replace("&", "").startswith("core::option::Option<") and "NodeLocationPreference" in b.local_ty(c.args[0][1][0])]
+                if not on_opt:
+                    continue
+                n += 1
+                meths = sorted({(c.decl or c.name or "").split("::")[-1] for c in on_opt})
+                ok = all(m in ("unwrap_or", "unwrap_or_else", "as_ref", "copied", "cloned", "clone", "as_deref") for m in meths) and any(m.startswith("unwrap_or") for m in meths)
+                r.instance("policy-preference-wins:" + fn_short(b.path), ok,
+                           "the policy's Option<preference> is combined with the request's through %s: only `unwrap_or(inherited)` keeps an explicit `prefer no datacenter`; filter / and_then / or make the policy "
+                           "follow the session's datacenter, and with failover off every other datacenter disappears from its plans" % meths, b.stmt_span(st))
+    if n == 0:
+        raise AnchorLost("no ProcessedRoutingInfo construction that resolves the effective preference found")
+
+
 def check(ctx):
     facts = inline_view(ctx.facts("default"))
-    for fn in (r1, r2, r3, r4, r5, r6, r7):
+    for fn in (r1, r2, r3, r4, r5, r6, r7, r8):
         try:
             fn(ctx, facts)
         except AnchorLost as ex:
